@@ -1118,10 +1118,23 @@ func (c *Ctx) specCall(env *SpecEnv, e *SExpr) Value {
 			if e.Args[1].Kind == "str" {
 				name = e.Args[1].Name
 			}
+			var sym *Term
 			for _, r := range env.st.CallLog {
 				if callMatches(r.Callee, name) {
+					if r.Cond != nil {
+						one := Ite(r.Cond, c.idx(1), c.idx(0))
+						if sym == nil {
+							sym = one
+						} else {
+							sym = Arith("+", sym, one)
+						}
+						continue
+					}
 					n++
 				}
+			}
+			if sym != nil {
+				return Arith("+", sym, c.idx(int64(n)))
 			}
 			return UntypedInt{V: big.NewInt(int64(n))}
 		case "isNaN":
@@ -1255,7 +1268,7 @@ func (c *Ctx) seqEq(env *SpecEnv, a, b Value) *Term {
 		}
 		return And(cs...)
 	}
-	k := BoundVar("k", c.IntSort())
+	k := CanonBound("kq", c.IntSort())
 	return And(Eq(la, lb), Forall([]*Term{k}, Implies(And(Cmp("<=", c.idx(0), k, true), Cmp("<", k, la, true)),
 		c.valueEq(st, c.specIndex(env, sa, k), c.specIndex(env, sb, k)))))
 }
@@ -1277,6 +1290,7 @@ func (c *Ctx) applySpecFunc(env *SpecEnv, sf *SpecFunc, args []Value) Value {
 			case StrV:
 				s := c.strSym(env.st, x)
 				ts = append(ts, s.Arr, s.Off, s.Len)
+				_ = s.ID
 			case SliceV:
 				hs := c.toHeapSlice(env.st, x, x.Elem)
 				lvs := c.leavesOf(x.Elem)
